@@ -52,7 +52,8 @@ WRITE_OPS = ['create_rp', 'update_rp', 'delete_rp', 'put_inventories',
              'post_allocations', 'delete_allocations', 'reshaper', 'reshaper',
              'put_allocations_clear', 'move_subtree', 'move_subtree',
              'post_allocations_existing', 'delete_allocations_held',
-             'put_rp_aggregates_swap']
+             'put_rp_aggregates_swap', 'put_rp_traits_swap',
+             'put_allocations_existing_old']
 PROFILE = machine.Profile('c17', 'C17', ops=[(1, o) for o in WRITE_OPS],
                           oracles=[], nontrivial=lambda *a: False,
                           defect_rate=0)
